@@ -47,6 +47,50 @@ for found = range OVER<<§src(3, 30)>>OVER {
 	tr.V(3, seen)
 }
 tr.V(4, found)`, "range-assign", "body-declares"),
+		mk("cons-pull-closures-over-reassigned-iterator", `
+it := §src(3, 10)
+next := func() bool { return it.MoveNext() }
+cur := func() int { return it.Current() }
+tr.V(1, next())
+tr.V(2, cur())
+it = §src(2, 50)
+for next() {
+	tr.V(3, cur())
+}
+var late ITER[int]
+nextLate := func() bool { return late.MoveNext() }
+late = §src(1, 70)
+tr.V(4, nextLate())`, "pull-closures"),
+		Raw("cons-range-over-field-reassigned-in-body", consumerSrc+`
+type §holder struct{ it ITER[int] }
+
+func §fwd(h *§holder) ITER[int] GEN[int]{
+	for v := range OVER<<h.it>>OVER {
+		YIELD(v)
+	}
+	RETNIL
+}GEN
+func §E() {
+	h := &§holder{it: §src(4, 10)}
+	other := §src(3, 100)
+	for v := range OVER<<h.it>>OVER {
+		tr.V(1, v)
+		if v == 11 {
+			h.it = other
+		}
+	}
+	for v := range OVER<<other>>OVER {
+		tr.V(2, v)
+	}
+	g := &§holder{it: §src(3, 200)}
+	f := §fwd(g)
+	tr.V(3, f.MoveNext())
+	g.it = §src(2, 300)
+	for f.MoveNext() {
+		tr.V(4, f.Current())
+	}
+}
+`, "iter-in:struct-field", "field-reassigned"),
 		mk("cons-break-does-not-overpull", `
 it := §src(4, 10)
 for v := range OVER<<it>>OVER {
